@@ -827,7 +827,7 @@ def strace_crosscheck(case, stats):
 
         def loosen(seq):
             # the lock file content is the pid (length varies); everything else must agree exactly
-            return [(kind, p1, None if (p1 or '').endswith('.lck') and kind == 'write' else p2)
+            return [(kind, p1, None if (p1 or '').endswith('.lck') and kind in ('write', 'truncate') else p2)
                     for kind, p1, p2 in seq]
         if loosen(mine) != loosen(theirs):
             for i, (x, y) in enumerate(zip(loosen(mine) + [None] * 5, loosen(theirs) + [None] * 5)):
@@ -846,8 +846,8 @@ def strace_crosscheck(case, stats):
 
 def random_shard(shard, nshards, seed, tier):
     st_ = core.Stats()
-    n = (1600 if tier == 'quick' else 40000) // nshards
-    core.hyp_search(cases(), check_case, st_, max_examples=n, seed=seed)
+    n = (3200 if tier == 'quick' else 64000) // nshards
+    core.hyp_search(cases(), check_case, st_, max_examples=n, seed=seed, max_signatures=2 if tier == 'quick' else 4)
     if tier == 'thorough' and shard < 8:
         # recorder completeness against strace, a few generated stores per backend
         import hypothesis
